@@ -18,7 +18,8 @@ fault_percentage and num_workers the condition under which is_valid_config sets 
 is_valid starts true, is only ever set to false, and is the return value; the seed length rule mentions 32.  (5) Refusal: a make_config error and an invalid
 configuration both end in process::exit(1) before any worker thread is spawned; an unknown YAML key returns Err; the Result of every parse / try_from applied to a setting's text is enforced (unwrap/expect/?/match on Err that
 refuses), never swallowed by ok(), unwrap_or(..) or a default; the seed length rule has the truth table of `len == 32`.
-(6) Sibling semantics: both loaders lower-case client_stats and compare with "yes"/"on", decode the seed with the same encoding and parse kms_protection
+A setting's field is assigned only from its own key / variable: no assignment outside a key arm (file) and no other assignment (environment), so a
+written value cannot be replaced after loading and before validation.  (6) Sibling semantics: both loaders lower-case client_stats and compare with "yes"/"on", decode the seed with the same encoding and parse kms_protection
 with the same FromStr.
 """
 NOT_DECIDED = "YAML parsing itself (yaml-rust); std FromStr for integers"
@@ -183,6 +184,12 @@ def run(ctx):
             rels = flow.rel_facts_at(FIN, bb)
             keys = [r[2][1] if r[2][0] == "str" else r[1][1] for r in rels if r[0] == "Eq" and (r[2][0] == "str" or r[1][0] == "str")]
             writes.setdefault(keys[-1] if keys else None, []).append((fld, fev.call_term(bb), bb, "term"))
+    # a setting is written only in the arm that reads it from the file: an assignment outside every key arm (a fix-up after loading, e.g. "0 means
+    # not configured, use the default") replaces what was written before validation sees it
+    stray = writes.get(None, [])
+    ctx.check("wiring", "file/no-assignment-outside-a-key-arm", not stray, "every assignment to a FileConfig field happens in the arm of the key it is read from",
+              "FileConfig::new assigns %s outside the arm of any key: the value written in the file can be replaced before it is validated" % sorted({w[0] for w in stray}),
+              fnew.loc(stray[0][2]) if stray else ctx.loc(fnew))
     for k in doc_keys:
         ws = writes.get(k, [])
         gf, gr = getter_field(W, FILE, GETTER.get(k, k))
@@ -285,6 +292,10 @@ def run(ctx):
                         dep = True
                 if dep:
                     src.append(w)
+        other = [w for w in ws if w not in src]
+        ctx.check("wiring", "env/%s/no-other-assignment" % k, not other, "field %s is assigned only from %s" % (gf, envname),
+                  "field %s is also assigned a value that does not come from %s (%s): what was written can be replaced before it is validated" % (gf, envname, [fmt(w[0])[:60] for w in other]),
+                  enew.loc(other[0][1]) if other else ctx.loc(enew))
         ctx.check("wiring", "env/%s" % k, bool(src), "%s is stored in field %s, which %s() returns" % (envname, gf, GETTER.get(k)),
                   "the field %s returned by %s() is not loaded from %s" % (gf, GETTER.get(k), envname), enew.loc(ws[0][1]) if ws else ctx.loc(enew))
         for w in src:
